@@ -345,6 +345,63 @@ class PacketProducer:
 
 
 # ---------------------------------------------------------------------------------------------------------
+# the optional `error` payload field (`source.error.eq(sink.error)` when both endpoints have it)
+
+ERR_W = 2
+
+
+class ErrStim:
+    """Appends a random sink.error value (changing every cycle, also while valid = 0) to the wrapped stimulus."""
+    def __init__(self, base):
+        self.base = base
+
+    def reset(self):
+        self.base.reset()
+
+    def next(self, rng, t, prev):
+        if prev is not None and not isinstance(prev[1][0], str):
+            prev = (prev[0][:-1], prev[1][:-1])
+        return tuple(self.base.next(rng, t, prev)) + (rng.getrandbits(ERR_W),)
+
+
+class ErrMonitor:
+    """source.error is the sink's error line of the same cycle whenever the source is valid (0 when only the source
+    has the field); everything else is judged by the wrapped monitor."""
+    def __init__(self, base, both):
+        self.base, self.both = base, both
+
+    def observe(self, letter, outs):
+        if outs[1]:
+            want = letter[-1] if self.both else 0
+            if outs[-1] != want:
+                return "source.error = %r while sink.error = %r (%s)" % (
+                    outs[-1], letter[-1], "pass-through expected" if self.both else "source-only field must stay 0")
+        return self.base.observe(letter[:-1], outs[:-1])
+
+
+def _err_layout(dw, error, side):
+    lay = [("data", dw)]
+    if error == "both" or (error == "source" and side == "source"):
+        lay.append(("error", ERR_W))
+    return lay
+
+
+def _add_error(inst, m, error, letters):
+    """Extend a Packetizer/Depacketizer instance by the error line: input last, output last."""
+    both = error == "both"
+    inst.in_sigs.append(m.sink.error if both else Signal(ERR_W))
+    inst.out_sigs.append(m.source.error)
+    inst.qual.append(1)
+    inst.alphabet = [l + (e,) for l in letters for e in ((1, 2) if both else (0, 1))]      # both bits, distinguishable
+    inst.stim = ErrStim(inst.stim)
+    base_factory = inst.mon_factory
+    inst.mon_factory = lambda: ErrMonitor(base_factory(), both)
+    base_event = inst.is_event
+    inst.is_event = lambda letter, o: base_event(letter[:-1], o[:-1])
+    return inst
+
+
+# ---------------------------------------------------------------------------------------------------------
 # Packetizer
 
 class PacketizerStim:
@@ -448,15 +505,18 @@ class FramingMonitor:
 
 
 def packetizer_inst(name, B, H, fields, swap, data_values=None, hdr_values=None, garbage="hold",
-                    min_len=1, max_len=8, alphabet=True):
+                    min_len=1, max_len=8, alphabet=True, error=None):
+    """error: None | 'both' (sink and source have an `error` field) | 'source' (only the source has it)"""
     dw = 8 * B
     hs = HdrSpec(fields, H, swap)
     nf = len(hs.table)
     lean_open = "packetizer %d %d %s" % (B, H, hs.lean_args())
+    if error:
+        lean_open = "packetizer_err %d %d %d %d %s" % (ERR_W, int(error == "both"), B, H, hs.lean_args())
 
     def build():
-        sd = stream.EndpointDescription([("data", dw)], hs.header.get_layout())
-        rd = stream.EndpointDescription([("data", dw)])
+        sd = stream.EndpointDescription(_err_layout(dw, error, "sink"), hs.header.get_layout())
+        rd = stream.EndpointDescription(_err_layout(dw, error, "source"))
         m = packet.Packetizer(sd, rd, hs.header)
         fsig = [getattr(m.sink, k) for k in hs.names]
         ins = [m.sink.valid, m.sink.data, m.sink.last] + fsig + [m.source.ready]
@@ -476,8 +536,10 @@ def packetizer_inst(name, B, H, fields, swap, data_values=None, hdr_values=None,
                                                   None if not alphabet else data_values,
                                                   None if not alphabet else hdr_values))
         inst.mon_factory = lambda: FramingMonitor(B, hs)
+        if error:
+            _add_error(inst, m, error, letters)
         return inst
-    return _try(build, name, lean_open, (0,) * (4 + nf))
+    return _try(build, name, lean_open, (0,) * (4 + nf + (1 if error else 0)))
 
 
 # ---------------------------------------------------------------------------------------------------------
@@ -591,14 +653,16 @@ class DeframingMonitor:
 
 
 def depacketizer_inst(name, B, H, fields, swap, data_values=None, min_len=None, max_len=None, alphabet=True,
-                      garbage="hold"):
+                      garbage="hold", error=None):
     dw = 8 * B
     hs = HdrSpec(fields, H, swap)
     lean_open = "depacketizer %d %d %s" % (B, H, hs.lean_args())
+    if error:
+        lean_open = "depacketizer_err %d %d %d %d %s" % (ERR_W, int(error == "both"), B, H, hs.lean_args())
 
     def build():
-        sd = stream.EndpointDescription([("data", dw)])
-        rd = stream.EndpointDescription([("data", dw)], hs.header.get_layout())
+        sd = stream.EndpointDescription(_err_layout(dw, error, "sink"))
+        rd = stream.EndpointDescription(_err_layout(dw, error, "source"), hs.header.get_layout())
         m = packet.Depacketizer(sd, rd, hs.header)
         fsig = [getattr(m.source, k) for k in hs.names]
         ins = [m.sink.valid, m.sink.data, m.sink.last, m.source.ready]
@@ -618,8 +682,10 @@ def depacketizer_inst(name, B, H, fields, swap, data_values=None, min_len=None, 
         inst.stim = DepacketizerStim(FramedProducer(dw, min_len or lo, max_len or lo + 6,
                                                     data_values if alphabet else None, garbage))
         inst.mon_factory = lambda: DeframingMonitor(B, H, hs)
+        if error:
+            _add_error(inst, m, error, letters)
         return inst
-    return _try(build, name, lean_open, (0, 0, 0, 0))
+    return _try(build, name, lean_open, (0, 0, 0, 0) + ((0,) if error else ()))
 
 
 # ---------------------------------------------------------------------------------------------------------
@@ -837,11 +903,14 @@ def packetfifo_inst(name, pd, qd=None, buffered=False, *a, legacy=False, **kw):
 
 
 def _packetfifo_build(name, pd, qd=None, buffered=False, dwid=1, pwid=1, data_values=(0, 1), param_values=(0, 1),
-                      alphabet=True, tokens=None, max_len=None, legacy=False, overlong_from=0):
-    layout = stream.EndpointDescription([("data", dwid)], [("p", pwid)])
+                      alphabet=True, tokens=None, max_len=None, legacy=False, overlong_from=0, noparam=False):
+    """noparam: a layout without params (PacketFIFO then queues a 1-bit `dummy` param that is never connected);
+    the param letter must be 0 and the param output is a constant 0."""
+    layout = stream.EndpointDescription([("data", dwid)], [] if noparam else [("p", pwid)])
     m = packet.PacketFIFO(layout, payload_depth=pd, param_depth=qd, buffered=buffered)
-    ins = [m.sink.valid, m.sink.data, m.sink.p, m.sink.last, m.source.ready]
-    outs = [m.sink.ready, m.source.valid, m.source.data, m.source.p, m.source.first, m.source.last]
+    ins = [m.sink.valid, m.sink.data, Signal() if noparam else m.sink.p, m.sink.last, m.source.ready]
+    outs = [m.sink.ready, m.source.valid, m.source.data, Signal() if noparam else m.source.p, m.source.first,
+            m.source.last]
     letters = []
     if alphabet:
         toks = tokens or [(d, p, l) for d in data_values for p in param_values for l in (0, 1)]
@@ -855,7 +924,7 @@ def _packetfifo_build(name, pd, qd=None, buffered=False, dwid=1, pwid=1, data_va
     inst.is_event = lambda letter, o: bool((letter[0] and o[0]) or (o[1] and letter[4]))
     cap = pd + (1 if buffered and pd >= 2 else 0)
     inst.stim = FifoStim(dwid, pwid, max_len or cap + 1, data_values if alphabet else None,
-                         param_values if alphabet else None, overlong_from)
+                         (0,) if noparam else (param_values if alphabet else None), overlong_from)
     # stream.SyncFIFO ignores `buffered` below depth 2 (depth 1 = PipeValid register, depth 0 = wire)
     inst.mon_factory = lambda: PacketFifoMonitor(pd + (1 if buffered and pd >= 2 else 0), pd, qdepth)
     inst.defect_region = fifo_defect_region(pd, qd, buffered)
